@@ -32,7 +32,9 @@ def cbDist (ids : List Nat) (table : Array Nat) (a b : List Nat) : Float32 :=
     let i := ids.idxOf x
     let j := ids.idxOf y
     let n := ids.length
-    Float32.ofNat (table.getD (if i < j then pairIndex n i j else pairIndex n j i) 0)
+    let v := table.getD (if i < j then pairIndex n i j else pairIndex n j i) 0
+    -- entries from 2^25 on are the bit pattern of the distance (distances a few ulps apart)
+    if v ≥ 2 ^ 25 then Float32.ofBits v.toUInt32 else Float32.ofNat v
   | _, _ => Float32.ofNat (mix a b)
 
 def parseMethod (s : String) : Option Method :=
